@@ -58,6 +58,10 @@ CHECKS = {
         asan(tiers=["thorough"], args={"thorough": {"budget-s": 240, "images": 24, "chains": 1, "threads": 8}}),
     ]},
     "C18": {"crate": "h_engines", "bin": "c18", "level": "exploration", "legs": [native()]},
+    "C12": {"crate": "h_chain", "bin": "c12", "level": "exploration", "legs": [
+        native(),
+        tsan(tiers=["thorough"], args={"thorough": {"part": "threads", "budget-s": 300}}),
+    ]},
     "C13": {"crate": "h_chain", "bin": "c13", "level": "fault_enumeration", "legs": [
         native(),
         script("strace-ack", "legs_fsync", "c13_leg"),
